@@ -51,7 +51,7 @@ pub fn run(cfg: &Cfg) -> Report {
     let seed = cfg.seed;
 
     // (A) exhaustive comparison with brute force over all involution tuples
-    let bounds: Vec<(usize, usize)> = cfg.tier.pick(vec![(1, 7), (2, 6), (3, 5)], vec![(1, 9), (2, 7), (3, 6), (4, 4)]);
+    let bounds: Vec<(usize, usize)> = cfg.tier.pick(vec![(1, 8), (2, 7), (3, 6), (4, 4)], vec![(1, 10), (2, 8), (3, 7), (4, 5)]);
     let mut jobs: Vec<(usize, usize)> = vec![];
     for &(dim, nmax) in &bounds {
         for n in 1..=nmax {
@@ -113,7 +113,7 @@ pub fn run(cfg: &Cfg) -> Report {
     report.absorb(ctx);
 
     // (B) beyond the brute-force bound: validity, irredundancy, and membership of derived sets
-    let big: Vec<(usize, usize)> = cfg.tier.pick(vec![(2, 9), (3, 7)], vec![(2, 12), (3, 9)]);
+    let big: Vec<(usize, usize)> = cfg.tier.pick(vec![(2, 10), (3, 8)], vec![(2, 13), (3, 10)]);
     for (dim, n) in big {
         let mut ctx = Ctx::new();
         if let Some(out) = generator_output(&mut ctx, dim, n) {
